@@ -350,7 +350,12 @@ class MasterSim(object):
     def refresh_app_decl(self):
         """Recompute label/traits of every instance from the loaded
         allocations (called before the oracles look)."""
+        gone = getattr(self, 'gone', ())
         for name, decl in self.decl_apps.items():
+            if name in gone:
+                # unscheduled by the world; the master re-assigns only what
+                # is still scheduled, so its last assignment stands
+                continue
             label, traits, _prio = self.assignment_of(name)
             decl['label'] = label
             decl['traits'] = decl['inst_traits'] | traits
